@@ -63,6 +63,7 @@ impl<R: Read + Seek> ReadBox<&mut R> for MoofBox {
                     "moof box contains a box with a larger size than it",
                 ));
             }
+            check_child_size(s)?;
 
             match name {
                 BoxType::MfhdBox => {
